@@ -38,6 +38,13 @@ int main(int argc, char** argv) {
   add_unit("luminosity", 3, 1, [](auto const* x, auto* o) { using T = TY(o); o[0] = glm::luminosity(ldv<3, T>(x)); });
   add_unit("luminosity_grey", 1, 1, [](auto const* x, auto* o) { using T = TY(o); o[0] = glm::luminosity(glm::vec<3, T, glm::defaultp>(x[0], x[0], x[0])); });
   add_unit("hsvColor", 3, 3, [](auto const* x, auto* o) { using T = TY(o); stv(o, glm::hsvColor(ldv<3, T>(x))); });
+  // HSV -> RGB: the sector switch `switch(int(floor(h/60)))` is traced through SymR's comparison-decided `operator int`
+  add_unit("rgbColor", 3, 3, [](auto const* x, auto* o) { using T = TY(o); stv(o, glm::rgbColor(ldv<3, T>(x))); });
+  // numeric exploration: rgbColor and hsvColor invert each other on the RGB cube (raw numbers in [-2,2] are folded into [0,1])
+  add_prop("p_hsv_roundtrip", 3, 2e-5, 1e-12, [](auto const* x) { using T = TY(x);
+    glm::vec<3, T, glm::defaultp> c(std::abs(x[0]) * T(0.5), std::abs(x[1]) * T(0.5), std::abs(x[2]) * T(0.5));
+    auto d = glm::rgbColor(glm::hsvColor(c)) - c;
+    return std::max(std::abs(d.x), std::max(std::abs(d.y), std::abs(d.z))); });
 #endif
   return unit_main(argc, argv);
 }
